@@ -56,8 +56,8 @@ CHECKS = {
                 note='extractor = subclass of pyfront Interp in t_C07.py, trusted but validated each run (spied and scripted RNG, interval goals); GeneratorND tabulated at N=2; linspace/logspace/meshgrid/rand/randperm/atan2/acos semantics modelled; see known_findings.d/C07.json for recorded defects',
                 text='Coq theorems about the method table and per-index formulas regenerated from generators.py: table totality, static/fresh classification, in-domain and definedness of all noise-free node formulas, meshgrid(ij)+flatten = row-major tensor product for any number of axes, one LHS point per stratum for every u and permutation, spherical r/phi ranges, theta under the acos-argument hypothesis'),
     'C17': dict(engine=ENGINE_A, technique=TECH_A, ref='DESIGN.md section 7 C17',
-                note=NOTE_A + '; PARTIAL: mutual orthogonality / common normalisation of the 25 harmonics is not yet a Coq theorem (checked by exact quadrature on the implementation each run); scipy Legendre coefficients modelled by exact rationals (compared each run); basis-Laplacian theorems at the generated sizes (harmonics 0..4 = all supported, zonal 0/2/4, Fourier 0/1/3)',
-                text='the 25 real spherical harmonics regenerated from function_basis.py are eigenfunctions of the angular Laplacian with eigenvalue '
+                note=NOTE_A + '; orthogonality: antiderivative certificates proposed by sympy (untrusted) are re-checked in the kernel; scipy Legendre coefficients modelled by exact rationals (compared each run); basis-Laplacian theorems at the generated sizes (harmonics 0..4 = all supported, zonal 0/2/4, Fourier 0/1/3)',
+                text='the 25 real spherical harmonics regenerated from function_basis.py are mutually orthogonal on the sphere (iterated RInt = 0 for all 300 pairs, certificates re-checked in the kernel) with <Y,Y> within 1e-8 of pi, and are eigenfunctions of the angular Laplacian with eigenvalue '
                      '-l(l+1) for all angles; documented column order for max_degree 0..4; HarmonicsLaplacian equals operators.spherical_laplacian '
                      'of sum_k R_k(r) Y_k for arbitrary coefficient functions (linearity + 25 per-harmonic identities); Legendre 0..12 satisfy '
                      'Legendre\'s equation with P(1)=1; zonal harmonics = sqrt((2l+1)/(4 pi)) P_l(cos theta) for any degree list up to 12; '
